@@ -148,6 +148,13 @@ Definition guard_parts (vp : string) (e : node) : option (string * node) :=
 
 Definition mk_opt (base : node) : node := Node (K KOptChain 0 0) [Node (Bln true) []; base].
 
+Fixpoint is_super_callee (n : node) : bool :=
+  match n with
+  | Node (K KSuperProp _ _) _ => true
+  | Node (K KParen _ _) [e] => is_super_callee e
+  | _ => false
+  end.
+
 (** Mark as optional again the link that uses the guarded temporary [t]:
     [t.prop], [t(args)], or [t.call(o, args)] where [t := o.prop] or [t := o?.prop]. *)
 Fixpoint unguard (vp : string) (raw : list (string * node)) (t : string) (n : node) : node :=
@@ -176,6 +183,11 @@ Fixpoint unguard (vp : string) (raw : list (string * node)) (t : string) (n : no
                   (* [t := o?.prop]: the callee was itself an optional member access, [o?.prop?.(args)] *)
                   if same_receiver vp recv this
                   then mk_opt (Node (K KCall lo hi) [cx; mk_opt (Node (K KMember mlo mhi) [this; prop]); Node Lst rest; targs])
+                  else generic
+              | Some rhs =>
+                  (* [t := super.prop], called as [t.call(this, args)]: the input's [super.prop?.(args)] *)
+                  if is_super_callee rhs && is_kind KThis this
+                  then mk_opt (Node (K KCall lo hi) [cx; f; Node Lst rest; targs])
                   else generic
               | _ => generic
               end
